@@ -8,6 +8,15 @@ from . import asmdiff as A
 VALS = [0, 1, 2, 7, 8, 31, 0x7F, 0x80, 0xFF, 0x100, 0x7FFF, 0x8000, 0xFFFF, 0x10000, 0x7FFFFFFF, -1, -2, -0x80000000]
 
 
+def text_of(piece):
+    """what one @string piece contributes (strings as they are, numbers in hex, names as written)"""
+    if piece.startswith('"'):
+        return piece[1:-1]
+    if piece.isdigit():
+        return f"{int(piece):x}"
+    return piece
+
+
 class Gen:
     def __init__(self, rng):
         self.rng = rng
@@ -54,7 +63,12 @@ class Gen:
                         items.append('"' + rng.choice(["a", "xy", "Q"]) + '"')
                 x = self.fresh("EL")
                 body = rng.choice([f"@db {x}", f"@db {x}, {x}", f"@db 1, {x}", f"@db {x}\n@db 9"])
-                src += [f"@each {x}, {{ {' '.join(items)} }}"] + body.split("\n") + ["@endeach"]
+                if n == 1 and rng.random() < 0.5:
+                    # a single element may be written without braces
+                    src += [f"@each {x}, {items[0]}"] + body.split("\n") + ["@endeach"]
+                    self.feat["each_unbraced"] = self.feat.get("each_unbraced", 0) + 1
+                else:
+                    src += [f"@each {x}, {{ {' '.join(items)} }}"] + body.split("\n") + ["@endeach"]
                 for it in items:
                     exp += body.replace(x, it).split("\n")
                 self.feat["each"] += 1
@@ -118,6 +132,13 @@ class Gen:
                         s = rng.choice(["foo", "bar1", "q_q"])
                         parts_src.append(s)
                         text += s
+                if rng.random() < 0.25:
+                    # braces nested inside the piece list are pieces themselves (rendered as text)
+                    parts_src.insert(rng.randrange(len(parts_src) + 1), '{ "in" }')
+                    k = parts_src.index('{ "in" }')
+                    pre = "".join(text_of(p) for p in parts_src[:k])
+                    text = pre + "{in}" + "".join(text_of(p) for p in parts_src[k + 1:])
+                    self.feat["string_nested_braces"] = self.feat.get("string_nested_braces", 0) + 1
                 src.append(f"@db @string {{ {' '.join(parts_src)} }}")
                 exp.append(f'@db "{text}"')
                 self.feat["string"] += 1
